@@ -1,0 +1,10 @@
+//go:build verif
+
+package linereader
+
+import "io"
+
+// VerifSetInput replaces the reader lines are read from (os.Stdin by default).
+// It is compiled only with the verif build tag and is used by the external
+// verification harness.
+func VerifSetInput(rd io.Reader) { r = newLineReader(rd) }
